@@ -485,7 +485,66 @@ def c20():
                 extra_prefixes=("C00.", "C02.", "C04.", "C05.nospace_legit", "C05.stats", "C05.fsinfo", "C11.beyond", "C11.region", "C03."))
 
 
-CHECKS = {"C20": c20, "C10": c10, "C11": c11, "C08": c08, "C15": c15, "C16": c16, "C18": c18, "C06": c06, "C07": c07, "C09": c09, "C14": c14, "C01": c01, "C02": c02, "C03": c03, "C04": c04, "C05": c05, "C12": c12, "C13": c13}
+def c19():
+    t0 = time.time()
+    wd = workdir("C19")
+    rng = rng_for("C19", 0)
+    dig = {"digest": True, "obs": {"raw": False, "rv": False, "sv": True}}
+    ascii_progs, uni_progs = [], []
+    for kname in ["K1b", "K2", "K5"]:
+        cfg = dict(gen.K(kname), **dig)
+        for i in range(scale(10, 100)):
+            ascii_progs.append(gen.ns_program(rng, "f-ns-a-%s-%d" % (kname, i), cfg, 35, gen.NAMES_ASCII))
+            uni_progs.append(gen.ns_program(rng, "f-ns-u-%s-%d" % (kname, i), cfg, 35, gen.NAMES_ASCII + gen.NAMES_UNI))
+            ascii_progs.append(gen.io_program(rng, "f-io-%s-%d" % (kname, i), cfg, CS[kname], 30))
+    # long names of every length 1..255 (all of 240..255 in the quick tier), ASCII and non-ASCII
+    lens = list(range(1, 256)) if core.tier() == "thorough" else sorted(set(list(range(1, 30, 3)) + [12, 13, 14, 25, 26, 27, 38, 39, 40, 64, 65, 66, 127, 128, 129] + list(range(240, 256))))
+    cfgn = dict(gen.K("K3"), **dig)
+    for i in range(0, len(lens), 5):
+        ascii_progs.append(gen.name_program("f-len-a-%d" % i, cfgn, [("n%03d-" % n + "x" * n)[:n] for n in lens[i:i + 5]], [("open", ("N%03d-" % n + "X" * n)[:n]) for n in lens[i:i + 5]]))
+        uni_progs.append(gen.name_program("f-len-u-%d" % i, cfgn, [("\u00e9%03d-" % n + "\u00fc" * n)[:min(n, 127)] for n in lens[i:i + 5]], []))
+    res = []
+    res.append(("alloc-ascii", core.feature_pairs("alloc-ascii", ascii_progs, wd, "noalloc")))
+    res.append(("alloc-unicode", core.feature_pairs("alloc-unicode", uni_progs, wd, "noalloc")))
+    res.append(("fold-ascii", core.feature_pairs("fold-ascii", ascii_progs, wd, "nounicode")))
+    # non-ASCII histories on the ASCII-folding build must be explained by the same specification with Fold = AsciiUpper
+    uni2 = [dict(p, cfg={k: v for k, v in p["cfg"].items() if k not in ("obs", "digest")}) for p in uni_progs]
+    res.append(("fold-param", core.campaign("fold-param", uni2, wd, feat="nounicode")))
+    programs = sum(r.programs for _, r in res)
+    disagreements = sum(len(r.viol) for _, r in res)
+    core.finish("C19", "translation_validation", res, None, t0,
+                "the same namespace, file-I/O and long-name (every length 1..255 in thorough, all of 240..255 in quick) programs run through the reference "
+                "build, the fixed-buffer build (std+lfn+unicode) and, for ASCII histories, the ASCII-folding build (std+alloc+lfn); events are zipped and "
+                "TLC (TraceFeature) requires equal results, equal session listings and equal image digests after every call; non-ASCII histories on the "
+                "ASCII-folding build are validated by TraceFatFs instantiated with Fold = AsciiUpper",
+                ["image digest = FNV-1a over all non-zero 4 KiB blocks", "fields only one build can produce (String-returning accessors) are not compared"],
+                extra_cov={"programs": programs, "disagreements_checked": disagreements},
+                extra_prefixes=("C00.", "C01.", "C02.", "C04.", "C15."))
+
+
+def c17():
+    t0 = time.time()
+    wd = workdir("C17")
+    rng = rng_for("C17", 0)
+    dirs = gen.dir_cases(rng, quick=(core.tier() == "quick"))
+    specs = []
+    per = 150
+    for i in range(0, len(dirs), per):
+        base = gen.K("K3")["vol"] if (i // per) % 3 else dict(gen.K("K5b")["vol"])
+        specs.append({"id": "dirs-%d" % (i // per), "base": base, "dirs": dirs[i:i + per]})
+    res = []
+    res.append(("alloc", core.campaign("alloc", specs, wd, spec="TraceDirDecode", mode="dirs", n_shards=14, jvms=8)))
+    res.append(("fixedbuf", core.campaign("fixedbuf", specs, wd, feat="noalloc", spec="TraceDirDecode", mode="dirs", n_shards=14, jvms=8)))
+    core.finish("C17", LEVEL, res, None, t0,
+                "directories with arbitrary slot contents written into the root of FAT16/FAT32 volumes: all order/last-flag/checksum/deleted patterns for "
+                "runs of 1 and 2 long-name slots and sampled (thorough: 120 000) runs of 3, followed by file/directory/label/deleted/END; well-formed runs of "
+                "1..20 slots (260 units); unpaired surrogates, embedded NUL, 0xFFFF; every value (quick: stride 5 + special values) of every byte of a "
+                "long-name slot and of a short slot in three contexts; random slot soup; under the dynamic and the fixed-buffer build. TLC (DirSlots!Class, "
+                "LongNameOk) decides count, order, long-name-or-fallback, length and every accessor value",
+                ["cluster pointers in the generated slots are 0 (valid); directory entries pointing into garbage chains are outside the property"])
+
+
+CHECKS = {"C17": c17, "C19": c19, "C20": c20, "C10": c10, "C11": c11, "C08": c08, "C15": c15, "C16": c16, "C18": c18, "C06": c06, "C07": c07, "C09": c09, "C14": c14, "C01": c01, "C02": c02, "C03": c03, "C04": c04, "C05": c05, "C12": c12, "C13": c13}
 
 
 def run(prop):
@@ -496,7 +555,7 @@ def run(prop):
 
 
 def setup():
-    for f in ("ref",):
+    for f in ("ref", "noalloc", "nounicode"):
         core.build(f)
     # SANY on all modules
     for fn in sorted(os.listdir(core.SPEC)):
